@@ -9,6 +9,7 @@ import DsdVerif.Model.Complex
 import DsdVerif.Model.World
 import DsdVerif.Gen.Grammars
 import DsdVerif.Model.Kernel
+import DsdVerif.Model.Reader
 
 namespace Dsd.Driver
 open Dsd
@@ -376,5 +377,80 @@ def stepW (w : World) (line : String) : World × String :=
     | some id, some v => let (w', a) := w.queryC id v; (w', showAns a)
     | _, _ => (w, "bad-op")
   | _ => (w, step line)
+
+
+/-! ### the reader -/
+
+def showRErr : RErr → String
+  | .singleton => "err SingletonError" | .objectInit => "err ObjectInitError"
+  | .secondaryStructure => "err SecondaryStructureError" | .notImplemented => "err NotImplementedError"
+  | .assertion => "err AssertionError" | .pilFormat => "err PilFormatError"
+  | .fault k => "err Fault " ++ k
+
+def sortStr (l : List String) : List String := l.mergeSort (fun a b => !strLt b a)
+
+def summary (s : RState) (sl : Slots) (d : RDict) (members : List (Nat × (List String × List String))) : String :=
+  let doms := (d.domains.map (fun (p : String × Nat) =>
+    let len := ((s.w.doms[sl.dom]?).bind (fun cr => cr.reg.findId p.2)).map (fun o => toString o.canon.2) |>.getD "?"
+    p.1 ++ ":" ++ len ++ ":" ++ ((s.dseq.lookup p.2).getD "-")))
+  let strands := d.strands.map (fun (p : String × Nat) =>
+    p.1 ++ "=" ++ showNames (((s.w.node p.2).map (·.children)).getD [] |>.filterMap (fun c => (s.w.domObj c).map (·.2.name))))
+  let cplxs := d.complexes.map (fun (p : String × Nat) =>
+    match s.w.cstate.lookup p.2 with
+    | some o => p.1 ++ "=" ++ showNames o.seq ++ "/" ++ String.ofList o.sst ++ "@" ++
+        (match s.conc.lookup p.2 with | some (m, v, u) => m ++ "," ++ v ++ "," ++ u | none => "-")
+    | none => p.1 ++ "=?")
+  let macs := d.macrostates.map (fun (p : String × Nat) =>
+    p.1 ++ "=" ++ ",".intercalate (sortStr (((s.w.node p.2).map (·.children)).getD [] |>.filterMap (fun c => (s.w.cplxObj c).map (·.2.name)))))
+  let rx (id : Nat) : String :=
+    let (rs, ps) := (members.lookup id).getD ([], [])
+    let ty := ((s.w.rxns[sl.rxn]?).bind (fun cr => cr.reg.findId id)).map (fun o => o.canon.2.2.getD "None") |>.getD "?"
+    let (ra, un) := (s.rate.lookup id).getD ("-", none)
+    "+".intercalate (sortStr rs) ++ "->" ++ "+".intercalate (sortStr ps) ++ ":" ++ ty ++ ":" ++ ra ++ ":" ++ un.getD "None"
+  "D[" ++ " ".intercalate (sortStr doms) ++ "] S[" ++ " ".intercalate (sortStr strands) ++ "] C[" ++ " ; ".intercalate (sortStr cplxs) ++
+  "] M[" ++ " ".intercalate (sortStr macs) ++ "] DET[" ++ " ".intercalate (sortStr (d.det.map rx)) ++ "] CON[" ++
+  " ".intercalate (sortStr (d.con.map rx)) ++ s!"] other={d.other}"
+
+/-- reaction member names per reaction id, recovered from the parsed lines (the model stores ids only) -/
+def rxnMembers (s : RState) (sl : Slots) (trees : List PP.Tree) (d : RDict) : List (Nat × (List String × List String)) :=
+  -- every reaction object in the dictionary: match its canonical form against the lines' members
+  (d.det ++ d.con).filterMap (fun id =>
+    let found := trees.findSome? (fun t => match t with
+      | .grp (.tok "reaction" :: .grp _ :: .grp rs :: .grp ps :: _) =>
+        let r := tokList rs; let p := tokList ps
+        -- compare through a look-up of the members' canonical forms
+        let keyC (n : String) : Option MemKey :=
+          ((s.w.cplxs[sl.cplx]?).bind (fun cr => cr.reg.findName n)).map (fun o => MemKey.c o.canon)
+        let keyM (n : String) : Option MemKey :=
+          ((s.w.macros[sl.macr]?).bind (fun cr => cr.reg.findName n)).map (fun o => MemKey.m o.canon)
+        let canonC (l : List String) := (sortBy memLt (l.filterMap keyC))
+        let canonM (l : List String) := (sortBy memLt (l.filterMap keyM))
+        match ((s.w.rxns[sl.rxn]?).bind (fun cr => cr.reg.findId id)) with
+        | some o =>
+          let fullC := (r ++ p).all (fun n => (keyC n).isSome)
+          let fullM := (r ++ p).all (fun n => (keyM n).isSome)
+          if (fullC && o.canon.1 == canonC r && o.canon.2.1 == canonC p) || (fullM && o.canon.1 == canonM r && o.canon.2.1 == canonM p)
+          then some (r, p) else none
+        | none => none
+      | _ => none)
+    found.map (fun m => (id, m)))
+
+def stepR (s : RState) (line : String) : RState × String :=
+  match line.splitOn "\t" with
+  | ["read.doc", hex, ign, slots, keep] =>
+    let sl : Slots := match (words slots).map String.toNat? with
+      | [some a, some b, some c, some d, some e] => { dom := a, strand := b, cplx := c, macr := d, rxn := e }
+      | _ => {}
+    match PP.parseDoc Gen.pil_env Gen.pil_grammar (String.ofList (unhex hex.toList)) with
+    | none => (s, "read err ParseException")
+    | some trees =>
+      let before := s.w.held
+      match s.readDoc sl (words ign) before trees {} with
+      | (s1, .error e) => (s1, "read " ++ showRErr e)
+      | (s1, .ok d) =>
+        let out := "read ok " ++ summary s1 sl d (rxnMembers s1 sl trees d)
+        if keep == "1" then (s1, out) else (s1.keepOnly before {}, out)
+  | ["reset"] => ({}, "ok")
+  | _ => let (w', r) := stepW s.w line; ({ s with w := w' }, r)
 
 end Dsd.Driver
